@@ -547,9 +547,24 @@ partial def handleIO (op : String) (args : List String) (impl : Option (List Str
           let spec : Encode.Spec := ⟨h.hashType, h.chunkHashType, h.flags, h.compType, h.dataDigest, h.chunks⟩
           pure (Encode.header Sha.zckHash spec == some (f.take (h.lead + h.headerLen)) && f.length == h.lead + h.headerLen + h.dataLen)
         | none => pure false)
+      -- without compression (and without the uncompressed-source flag) the model gives the file byte for byte: header_create's
+      -- output for the entries of the dictionary and of the chunks the chunker model cuts, followed by the chunks
+      let comparable := closed && get "comp" == some "none" && natOf "uncomp" == 0
+      let fileOk ← (do
+        if !comparable then pure true else
+        match Writer.closeChunks wcfg mops, (match get "dict" with | some d => if d == "-" then some [] else parseHex d | none => some []) with
+        | some chunks, some dict =>
+          let ht := ((get "full").bind (·.toNat?)).getD 1
+          let cht := ((get "chunk").bind (·.toNat?)).getD 3
+          match Encode.closeFileNone Sha.zckHash ht cht dict chunks with
+          | some mf =>
+            let f ← readFile outPath
+            pure (mf == f)
+          | none => pure false
+        | _, _ => pure true)
       let out := match Writer.closeChunks wcfg mops with
         | none => "HANG"
-        | some chunks => s!"OK close=1 lens={",".intercalate ((dictLen :: chunks.map (·.length)).map toString)} hdr={if hdrOk then 1 else 0}"
+        | some chunks => s!"OK close=1 lens={",".intercalate ((dictLen :: chunks.map (·.length)).map toString)} hdr={if hdrOk then 1 else 0} file={if fileOk then 1 else 0}"
       let pv := impl.map fun i =>
         match i with
         | "OK" :: rest =>
